@@ -7,8 +7,10 @@ from props import engine_common as ec, engine_prove
 MODULES = ['IRModel.Props.C05']
 
 
-def capture(dec, protos, params):
-    """real encode() with every _build_packet call recorded: list of (args, kwargs, result)"""
+def capture(dec, protos, params, variants=None, bits_of=None):
+    """real encode() with every _build_packet call recorded: list of (args, kwargs, result).
+    With `variants` (a list), every single-bit substitution of every keyword field is rebuilt AT CALL TIME (so that
+    protocols that switch class tables inside encode() are corrupted with the tables in force): (call index, what, frame)"""
     cls = dec.__class__
     calls = []
     orig = cls.__dict__.get('_build_packet', None)
@@ -17,6 +19,25 @@ def capture(dec, protos, params):
     def rec(c, *args, **kwargs):
         res = base(c, *args, **kwargs)
         calls.append((args, dict(kwargs), list(res)))
+        if variants is not None:
+            j = len(calls) - 1
+            for k in kwargs:
+                w = width_of(dec, k, kwargs[k])
+                for b in (bits_of(w) if bits_of else range(w)):
+                    kw = dict(kwargs)
+                    try:
+                        kw[k] = flip(kwargs[k], b)
+                        f2 = list(base(c, *args, **kw))
+                    except Exception:
+                        continue
+                    if f2 != list(res):
+                        variants.append((j, 'substitute %s bit %d' % (k, b), f2))
+            if 'T' in kwargs:
+                try:
+                    kw = dict(kwargs); kw['T'] = flip(kwargs['T'], 0)
+                    variants.append((j, 'toggle', list(base(c, *args, **kw))))
+                except Exception:
+                    pass
         return res
     cls._build_packet = classmethod(rec)
     try:
@@ -40,7 +61,9 @@ def width_of(dec, key, value):
     from pyIRDecoder.integer_wrapper import IntegerWrapper
     if isinstance(value, IntegerWrapper):
         return value.num_bits
-    for k, a, b in dec._parameters:
+    cls = dec.__class__
+    plist = cls._parameters or getattr(cls, '_parameters2', None) or getattr(cls, '_parameters1', None) or dec._parameters
+    for k, a, b in plist:
         if k == key:
             return b + 1 - a
     return 0
@@ -59,33 +82,59 @@ def search(ctx, focus=(), deep=1):
         for _ in range(nparams):
             plist.append(protos.sample_params(d, r))
         for p in plist:
+            bits_of = (lambda w: range(w)) if (ctx.thorough or d.name in focus) else (lambda w: range(w) if w <= 4 else sorted(set([0, w - 1, r.randrange(w), r.randrange(w)])))
+            vars_ = []
             try:
-                code, calls = capture(d, protos, p)
-                intact = protos.frames(code)[0]
-                protos.fresh(d).decode(list(intact), d.frequency)
+                code, calls = capture(d, protos, p, vars_, bits_of)
+                frames = protos.frames(code)
             except Exception:
-                continue                     # protocol does not round-trip this key at all: C01's business
-            if not calls:
                 continue
-            args, kwargs, res = calls[0]
-            if res != intact:
+            if not calls or not frames:
                 continue
-            corrupted = []
-            keys = [k for k in kwargs if width_of(d, k, kwargs[k]) > 0]
-            for k in keys:
-                w = width_of(d, k, kwargs[k])
-                bits = range(w) if (ctx.thorough or d.name in focus or w <= 4) else sorted(set([0, w - 1] + [r.randrange(w) for _ in range(2)]))
-                for b in bits:
-                    kw = dict(kwargs)
-                    try:
-                        kw[k] = flip(kwargs[k], b)
-                        f2 = list(d.__class__._build_packet(*args, **kw))
-                    except Exception:
+            # the first frame GROUP: frames fed in order to a fresh decoder until one yields a code
+            probe = protos.fresh(d)
+            group = []
+            okgroup = False
+            for f in frames[:4]:
+                group.append(f)
+                try:
+                    c0 = probe.decode(list(f), d.frequency)
+                    okgroup = protos.view(c0, list(p)) == p
+                    break
+                except pyIRDecoder.IRException as e:
+                    if 'Repeat' in type(e).__name__ or 'ExpectingMore' in type(e).__name__:
                         continue
-                    if f2 != intact:
-                        corrupted.append(('substitute %s bit %d' % (k, b), f2))
+                    break
+                except Exception:
+                    break
+            if not okgroup:
+                continue                     # protocol does not round-trip this key at all: C01's business
+            intact = group[0]
+            corrupted = []                   # (what, group')
+            for j, what, f2 in vars_:
+                if what == 'toggle':
+                    continue
+                res = calls[j][2]
+                done = False
+                for gi, gf in enumerate(group):
+                    if gf == res:
+                        g2 = list(group); g2[gi] = f2
+                        corrupted.append(('%s (frame %d)' % (what, gi), g2))
+                        done = True
+                        break
+                if not done and len(f2) == len(res):
+                    # the packet is a contiguous part of a longer frame (two halves joined by encode())
+                    for gi, gf in enumerate(group):
+                        for off in range(0, len(gf) - len(res) + 1):
+                            if gf[off:off + len(res)] == res:
+                                g2 = list(group); g2[gi] = gf[:off] + f2 + gf[off + len(res):]
+                                corrupted.append(('%s (frame %d part @%d)' % (what, gi, off), g2))
+                                done = True
+                                break
+                        if done:
+                            break
             n = len(intact)
-            if n > 8:
+            if n > 8 and len(group) == 1:
                 if ctx.thorough or d.name in focus:
                     positions = list(range(2, n - 3))
                 else:
@@ -95,49 +144,74 @@ def search(ctx, focus=(), deep=1):
                     if f_.get('site') == d.name and isinstance(inp, dict) and inp.get('params') == p and ' at ' in str(inp.get('corruption')):
                         positions.append(int(inp['corruption'].rsplit(' ', 1)[1]))
                 for i in sorted(set(x for x in positions if 0 < x < n - 2)):
-                    corrupted.append(('drop symbol at %d' % i, intact[:i] + intact[i + 2:]))
-                    corrupted.append(('append symbol at %d' % i, intact[:i] + intact[i:i + 2] + intact[i:]))
-                corrupted.append(('lead-in x0.5', [intact[0] // 2] + intact[1:]))
-                corrupted.append(('lead-in x2', [intact[0] * 2] + intact[1:]))
+                    corrupted.append(('drop symbol at %d' % i, [intact[:i] + intact[i + 2:]]))
+                    corrupted.append(('append symbol at %d' % i, [intact[:i] + intact[i:i + 2] + intact[i:]]))
+                corrupted.append(('lead-in x0.5', [[intact[0] // 2] + intact[1:]]))
+                corrupted.append(('lead-in x2', [[intact[0] * 2] + intact[1:]]))
             names = list(p)
-            for what, f2 in corrupted:
+
+            def feed(inst, grp):
+                """returns the first code a frame of the group yields, or None"""
+                for f in grp:
+                    try:
+                        return inst.decode(list(f), d.frequency)
+                    except pyIRDecoder.IRException as e:
+                        if 'Repeat' in type(e).__name__ or 'ExpectingMore' in type(e).__name__:
+                            continue
+                        return None
+                    except Exception:
+                        return None
+                return None
+
+            def split_group(grp):
+                """deliver a frame with interior gaps (< -2000 us, the streaming cut rule) piece by piece"""
+                out = []
+                for f in grp:
+                    piece = []
+                    for x in f:
+                        piece.append(x)
+                        if len(piece) > 3 and x < -2000:
+                            out.append(piece); piece = []
+                    if piece:
+                        out.append(piece)
+                return out
+
+            sg = split_group(group)
+            if len(sg) > len(group):
+                ctest = feed(protos.fresh(d), sg)
+                if ctest is not None and protos.view(ctest, names) == p:
+                    corrupted = corrupted + [(w_ + ' [delivered piecewise]', split_group(g_)) for w_, g_ in corrupted if w_.startswith('substitute')]
+
+            for what, g2 in corrupted:
                 for hist in ('fresh', 'after-intact'):
                     inst = protos.fresh(d)
                     if hist == 'after-intact':
-                        try:
-                            inst.decode(list(intact), d.frequency)
-                        except Exception:
+                        if feed(inst, group) is None:
                             continue
                     ctx.count((d.name, what, hist, tuple(sorted(p.items()))))
-                    try:
-                        c = inst.decode(list(f2), d.frequency)
-                    except pyIRDecoder.IRException:
+                    c = feed(inst, g2)
+                    if c is None:
                         continue
-                    except Exception:
-                        continue                     # leaks are C08's
                     v = protos.view(c, names)
                     if any(isinstance(x, str) or x is None for x in v.values()):
                         continue
-                    # what does the reported key encode to?
                     ok = False
                     try:
-                        code2, calls2 = capture(d, protos, v)
-                        cands = [c3[2] for c3 in calls2] + [list(x) for x in protos.frames(code2)]
-                        for a2, k2, r2 in calls2:
-                            if 'T' in k2:
-                                try:
-                                    kk = dict(k2); kk['T'] = flip(k2['T'], 0)
-                                    cands.append(list(d.__class__._build_packet(*a2, **kk)))
-                                except Exception:
-                                    pass
-                        ok = any(x == f2 for x in cands)
+                        v2 = []
+                        code2, calls2 = capture(d, protos, v, v2, lambda w: [])
+                        cands = [c3[2] for c3 in calls2] + [list(x) for x in protos.frames(code2)] + [f3 for _, w3, f3 in v2 if w3 == 'toggle']
+                        ok = all(any(x == gf for x in cands) for gf in g2)
+                        if not ok and what.endswith('[delivered piecewise]'):
+                            cs = split_group(cands)
+                            ok = all(any(x == gf for x in cs) for gf in g2)
                     except Exception:
                         ok = False
                     if not ok:
                         sym = ('reports-original' if v == p else 'reports-other-key') + '/' + hist
+                        kind = what.split(' ')[0]
                         ctx.violation(d.name, sym, '%s %s, %s, decoder %s: returned %s whose encoding is not the corrupted frame' % (d.name, p, what, hist, v),
-                                      dict(protocol=d.name, history=hist, kind=what.split(' ')[0], field=what.split(' ')[1] if what.startswith('substitute') else None),
-                                      input=dict(params=p, corruption=what, history=hist, frame=f2))
+                                      dict(protocol=d.name, history=hist, kind=kind, field=what.split(' ')[1] if kind == 'substitute' else None),
+                                      input=dict(params=p, corruption=what, history=hist, frames=g2))
     ctx.sample({'protocol': 'NEC', 'corruption': 'substitute F_CHECKSUM bit 3', 'history': 'after-intact'})
 
 
